@@ -307,8 +307,32 @@ class CHECK(Check):
 
     def setup(self, tier, seed):
         self.tier, self.seed = tier, seed
-        self.dbs = sqlref.databases(tier)
+        self.init_dbs(tier)
         self.cons = None
+
+    def init_dbs(self, tier):
+        """thorough: all databases for cases with <= 2 non-default features, the quick database set for cases with 3"""
+        self.dbs = sqlref.databases(tier)
+        self.narrow = None
+        self.active = None
+        if tier == 'thorough':
+            keyf = lambda db: repr(sorted(db.items()))
+            pos = {keyf(db): i for i, db in enumerate(self.dbs)}
+            self.narrow = []
+            for db in sqlref.databases('quick'):
+                k = keyf(db)
+                if k not in pos:
+                    pos[k] = len(self.dbs)
+                    self.dbs.append(db)
+                self.narrow.append(pos[k])
+
+    def db_iter(self):
+        idx = self.active if self.active is not None else range(len(self.dbs))
+        for i in idx:
+            yield self.cons[i], self.dbs[i]
+
+    def choose_dbs(self, nondefault):
+        self.active = self.narrow if (self.narrow is not None and nondefault > 2) else None
 
     def cases(self):
         d = 3 if self.tier == 'thorough' else 2
@@ -350,7 +374,7 @@ class CHECK(Check):
             res.covered('step_classes', tuple(type(s).__name__ for s in plan.steps))
         fails = []
         seen = set()
-        for con, db in zip(self.cons, self.dbs):
+        for con, db in self.db_iter():
             if 'ref_parts' in q:
                 l, op, r = q['ref_parts']
                 rl, rr = sqlref.run(con, l), sqlref.run(con, r)
@@ -396,6 +420,7 @@ class CHECK(Check):
         a = dict(zip(FEATURES, case))
         q = build(a)
         res.key(q['sql'] + '|' + q['catalog'])
+        self.choose_dbs(sum(1 for v in case if v))
         fails = self.evaluate(q, res)
         for k, msg in fails:
             cur = dict(a)
@@ -414,7 +439,7 @@ class CHECK(Check):
         return res
 
     def coverage(self, agg):
-        return {'exhaustive': True, 'databases': len(self.dbs),
+        return {'exhaustive': True, 'databases': len(self.dbs), 'databases_used_for_cases_with_3_deviations': len(self.narrow) if self.narrow is not None else len(self.dbs),
                 'features': {n: [o[0] if isinstance(o, tuple) else o for o in opts] for n, opts in FEATURES.items()},
                 'plan_shapes_seen': len(agg['cover'].get('step_classes', ())),
                 'rule': 'all feature assignments with <= d non-default features (quick 2, thorough 3) + full products join x {on, where, order x limit, group, '
